@@ -20,9 +20,11 @@ BATCH3 = ["CCOC(=O)C>>CC(=O)O", "CCBr.O>>CCO", "CC(=O)OCC.CN>>CC(=O)NC", "CCOC(=
 BATCH2 = ["CC(=O)Oc1ccccc1>>Oc1ccccc1", "CCBr.O>>CCO", "CC(=O)OCC.CN>>CC(=O)NC", "CCO>>CCO", "CCOC(=O)C>>CC(=O)O"]   # largest result first
 
 
-def check_run(ctx, rec, ref):
+def check_run(ctx, rec, ref, batch_size=None):
     plan = rec["plan"]
     case = {"inputs": rec["inputs"], "plan": plan}
+    if batch_size:
+        case["batch_size"] = batch_size
     if rec["error"] or len(rec["rows"]) != len(rec["inputs"]):
         ctx.fail("rows-lost-under-fault", case, {"error": rec["error"], "rows": len(rec["rows"])})
         return
@@ -38,7 +40,7 @@ def check_run(ctx, rec, ref):
         if pos not in hit and r != ref["rows"][pos]:
             # the searches work under wall-clock budgets: under machine load a run can differ from another run of the same batch without
             # any fault.  A leak counts only if it reproduces: the fault-free batch and the plan are run once more.
-            again = mcs.run_many([(rec["inputs"], None, 0), (rec["inputs"], plan, 0)])
+            again = mcs.run_many([(rec["inputs"], None, 0, 1, batch_size), (rec["inputs"], plan, 0, 1, batch_size)])
             if again[0]["rows"] != ref["rows"] or len(again[1]["rows"]) != len(rec["rows"]) or again[1]["rows"][pos] == again[0]["rows"][pos]:
                 ctx.timing_unstable += 1
                 continue
@@ -87,7 +89,27 @@ def run(ctx):
     plans3 = [{}, {"search": {"0:0": "raise", "0:1": "raise", "0:2": "raise"}}, {"search": {"0:0": "inner"}}, {"search": {"2:0": "inner", "2:1": "inner"}},
               {"search": {"0:0": "inner", "0:1": "inner", "0:2": "inner"}}]
     items3 = [(BATCH3, p, 0) for p in plans3]
-    recs, _ = pipe.cached("c11_%s_%d" % (ctx.tier, ctx.seed), lambda: mcs.run_many(items + items2 + items3, procs=8))
+    # several batches on ONE Balancer (batch_size=2): every MCS-stage reaction of the first batch times out under one condition; the
+    # reactions of the later batches were not hit and must come back as in the fault-free run of the same batching.  And: both kinds of
+    # fault on one fragment-analysis job (the wait expires and the analysis fails, also on a second attempt).
+    # (the later batches hold ring-forming reactions whose result comes from one particular search condition)
+    B4 = ["CCOC(=O)C>>CC(=O)O", "CC(=O)OCC.CN>>CC(=O)NC", "C=1C=CC(=CC=1)C=CC(=O)OCC.CC(C)=O>>C1C(=O)CC(CC1C2=CC=CC=C2)=O", "C(=CC)C.C1=C(C(OO)=O)C=CC=C1>>C1(C(C)O1)C",
+          "CC(=O)Oc1ccccc1>>Oc1ccccc1", "CCO>>CCO"]
+    plans4 = [{}, {"search": {"0:1": "timeout", "1:1": "timeout"}}, {"search": {"0:0": "timeout", "1:0": "timeout"}}, {"search": {"0:2": "timeout", "1:2": "timeout"}}]
+    items4 = [(B4, p, grace(p), 1, 2) for p in plans4]
+    plans5 = [{}, {"graph": {"0": "timeout+raise"}}, {"graph": {"2": "slow+raise-always"}}, {"graph": {"0": "slow+raise-always", "2": "timeout+raise"}}]
+    items5 = [(BATCH, p, 4.0 if p else 0) for p in plans5]
+    recs, _ = pipe.cached("c11_%s_%d" % (ctx.tier, ctx.seed), lambda: mcs.run_many(items + items2 + items3 + items4 + items5, procs=8))
+    n123 = len(items) + len(items2) + len(items3)
+    recs4, recs5 = recs[n123:n123 + len(items4)], recs[n123 + len(items4):]
+    recs = recs[:n123]
+    for rec in recs4[1:]:
+        ctx.nontrivial.add(json.dumps(["batched", rec["plan"]], sort_keys=True))
+        check_run(ctx, rec, recs4[0], batch_size=2)
+    for rec in recs5[1:]:
+        ctx.nontrivial.add(json.dumps(["both-kinds", rec["plan"]], sort_keys=True))
+        check_run(ctx, rec, recs5[0])
+    ctx.count("plans", "batched_runs_on_one_balancer", len(items4)); ctx.count("plans", "timeout_and_failure_on_one_job", len(items5))
     recs, recs2, recs3 = recs[:len(items)], recs[len(items):len(items) + len(items2)], recs[len(items) + len(items2):]
     for rec in recs3[1:]:
         ctx.nontrivial.add(json.dumps(["repeated-reaction", rec["plan"]], sort_keys=True))
@@ -150,8 +172,8 @@ def run(ctx):
 def replay(ctx, rep):
     case = rep.get("failing_input", {})
     if isinstance(case, dict) and "plan" in case:
-        recs = mcs.run_many([(case["inputs"], None, 0), (case["inputs"], case["plan"], 0)])
-        n = len(ctx.failures); check_run(ctx, recs[1], recs[0])
+        recs = mcs.run_many([(case["inputs"], None, 0, 1, case.get("batch_size")), (case["inputs"], case["plan"], 0, 1, case.get("batch_size"))])
+        n = len(ctx.failures); check_run(ctx, recs[1], recs[0], batch_size=case.get("batch_size"))
         print(json.dumps(recs[1]["rows"], indent=1))
         return 1 if len(ctx.failures) > n else 0
     return 0
